@@ -678,9 +678,6 @@ class InputParameterInt(InputParameter):
         ValueError
             when default value not between min_value and max_value (inclusive)
         """
-        super().__init__(key, name, default_value, display_priority,
-                         parent=parent, description=description,
-                         read_only=read_only)
         if not isinstance(default_value, int):
             raise TypeError(f"default value {default_value} is not an int")
         if not isinstance(min_value, (int, float)):
@@ -694,6 +691,10 @@ class InputParameterInt(InputParameter):
         if not min_value <= default_value <= max_value:
             raise ValueError(f"default value {default_value} not between " + \
                              f"{min_value} and {max_value}")
+        # register with the parent only after the arguments were validated
+        super().__init__(key, name, default_value, display_priority,
+                         parent=parent, description=description,
+                         read_only=read_only)
         self._min: int = min_value
         self._max: int = max_value
         self._format: str = format_str
@@ -877,9 +878,6 @@ class InputParameterFloat(InputParameter):
         ValueError
             when default value not between min_value and max_value (inclusive)
         """
-        super().__init__(key, name, default_value, display_priority,
-                         parent=parent, description=description,
-                         read_only=read_only)
         if not (isinstance(default_value, float) or 
                 isinstance(default_value, int)):
             raise TypeError(f"default value {default_value} is not float/int")
@@ -894,6 +892,10 @@ class InputParameterFloat(InputParameter):
         if not min_value <= default_value <= max_value:
             raise ValueError(f"default value {default_value} not between " + \
                              f"{min_value} and {max_value}")
+        # register with the parent only after the arguments were validated
+        super().__init__(key, name, default_value, display_priority,
+                         parent=parent, description=description,
+                         read_only=read_only)
         self._min: float = min_value
         self._max: float = max_value
         self._format: str = format_str
@@ -1044,11 +1046,12 @@ class InputParameterStr(InputParameter):
         TypeError
             when default_value is not a string
         """
+        if not isinstance(default_value, str):
+            raise TypeError(f"default value {default_value} is not a str")
+        # register with the parent only after the arguments were validated
         super().__init__(key, name, default_value, display_priority,
                          parent=parent, description=description,
                          read_only=read_only)
-        if not isinstance(default_value, str):
-            raise TypeError(f"default value {default_value} is not a str")
 
     @property    
     def value(self) -> str:
@@ -1151,11 +1154,12 @@ class InputParameterBool(InputParameter):
         TypeError
             when default_value is not a bool
         """
+        if not isinstance(default_value, bool):
+            raise TypeError(f"default value {default_value} is not a bool")
+        # register with the parent only after the arguments were validated
         super().__init__(key, name, default_value, display_priority,
                          parent=parent, description=description,
                          read_only=read_only)
-        if not isinstance(default_value, bool):
-            raise TypeError(f"default value {default_value} is not a bool")
 
     @property    
     def value(self) -> bool:
@@ -1304,9 +1308,6 @@ class InputParameterQuantity(InputParameter):
             when the default value, converted to SI units or base units, is 
             not between min_si and max_si (inclusive)
         """
-        super().__init__(key, name, default_value, display_priority,
-                         parent=parent, description=description,
-                         read_only=read_only)
         if not isinstance(default_value, Quantity):
             raise TypeError(f"default value {default_value} is not a Quantity")
         if not isinstance(min_si, (int, float)):
@@ -1320,6 +1321,10 @@ class InputParameterQuantity(InputParameter):
         if not min_si <= default_value.si <= max_si:
             raise ValueError(f"default value {default_value.si} not between " + \
                              f"{min_si} and {max_si}")
+        # register with the parent only after the arguments were validated
+        super().__init__(key, name, default_value, display_priority,
+                         parent=parent, description=description,
+                         read_only=read_only)
         self._min_si: float = min_si
         self._max_si: float = max_si
         self._format: str = format_str
@@ -1506,9 +1511,6 @@ class InputParameterSelectionList(InputParameter):
         ValueError
             when default_value is not one of the options in the list
         """
-        super().__init__(key, name, default_value, display_priority,
-                         parent=parent, description=description,
-                         read_only=read_only)
         if not isinstance(options, list):
             raise TypeError(f"options {options} is not a list")
         if not all([isinstance(x, str) for x in options]):
@@ -1518,6 +1520,10 @@ class InputParameterSelectionList(InputParameter):
         if not default_value in options:
             raise ValueError(f"default value {default_value} not in options " \
                              +f"list {options}")
+        # register with the parent only after the arguments were validated
+        super().__init__(key, name, default_value, display_priority,
+                         parent=parent, description=description,
+                         read_only=read_only)
         self._options = options
 
     @property    
